@@ -79,7 +79,7 @@ def gen_tree(rng, depth, want="int", locals_=()):
             return {"k": "bool", "b": rng.random() < 0.5}
         c = rng.random()
         if locals_ and c < 0.2:
-            return {"k": "var", "name": rng.choice(list(locals_))}
+            return {"k": "var", "lvl": 0, "path": [rng.choice(list(locals_))]}
         if c < 0.06 and want == "any":
             return gen_str(rng)
         return gen_num(rng)
@@ -176,7 +176,7 @@ def render(e):
     if k == "str":
         return render_str(e["src"])
     if k == "var":
-        return e["name"]
+        return "." * e["lvl"] + ".".join(e["path"])
     if k == "un":
         return "(%s(%s))" % ("-" if e["op"] == "neg" else "!", render(e["e"]))
     if k == "bin":
